@@ -28,6 +28,8 @@ import (
 	"go.sia.tech/hostd/v2/internal/verifh/vhlib"
 )
 
+const maxCasesPerHost = 150
+
 func childMode() bool { return os.Getenv("VH_MDM_CHILD") == "1" }
 
 // runChild is the body of the child process.
@@ -81,7 +83,9 @@ func runChild(t *testing.T) {
 			os.Exit(0)
 		}
 		say("E %d %s", i, obs)
-		if w.poisoned || strings.HasPrefix(obs, "res=hang") {
+		// a long-lived host accumulates appended/stored sectors faster than the 30 s prune loop frees them:
+		// start a fresh host every maxCasesPerHost cases so that "volume full" never decides an outcome
+		if w.poisoned || strings.HasPrefix(obs, "res=hang") || (i+1)%maxCasesPerHost == 0 {
 			say("RESTART")
 			// leave without running cleanups that could trip over the poisoned registry manager
 			out.Close()
